@@ -17,6 +17,8 @@
 #include "Store.h"
 #include "StrList.h"
 
+#include <limits>
+
 /*
  *    Currently only byte ranges are supported
  *
@@ -60,6 +62,22 @@ HttpHdrRangeSpec::Create(const char *field, int flen)
     return new HttpHdrRangeSpec(spec);
 }
 
+/// parses a byte position: 1*DIGIT occupying all of [start, end)
+static bool
+ParseBytePos(const char *start, const char *end, int64_t &value)
+{
+    if (start >= end)
+        return false;
+
+    for (const char *c = start; c < end; ++c) {
+        if (!xisdigit(*c))
+            return false; // strtoll() would skip whitespace, accept signs, or stop early
+    }
+
+    char *parsedEnd = nullptr;
+    return httpHeaderParseOffset(start, &value, &parsedEnd) && parsedEnd == end;
+}
+
 bool
 HttpHdrRangeSpec::parseInit(const char *field, int flen)
 {
@@ -68,9 +86,11 @@ HttpHdrRangeSpec::parseInit(const char *field, int flen)
     if (flen < 2)
         return false;
 
+    const auto fieldEnd = field + flen;
+
     /* is it a suffix-byte-range-spec ? */
     if (*field == '-') {
-        if (!httpHeaderParseOffset(field + 1, &length) || !known_spec(length))
+        if (!ParseBytePos(field + 1, fieldEnd, length) || !known_spec(length))
             return false;
     } else
         /* must have a '-' somewhere in _this_ field */
@@ -78,7 +98,7 @@ HttpHdrRangeSpec::parseInit(const char *field, int flen)
             debugs(64, 2, "invalid (missing '-') range-spec near: '" << field << "'");
             return false;
         } else {
-            if (!httpHeaderParseOffset(field, &offset) || !known_spec(offset))
+            if (!ParseBytePos(field, p, offset) || !known_spec(offset))
                 return false;
 
             ++p;
@@ -87,7 +107,7 @@ HttpHdrRangeSpec::parseInit(const char *field, int flen)
             if (p - field < flen) {
                 int64_t last_pos;
 
-                if (!httpHeaderParseOffset(p, &last_pos) || !known_spec(last_pos))
+                if (!ParseBytePos(p, fieldEnd, last_pos) || !known_spec(last_pos))
                     return false;
 
                 // RFC 2616 s14.35.1 MUST: last-byte-pos >= first-byte-pos
@@ -96,9 +116,14 @@ HttpHdrRangeSpec::parseInit(const char *field, int flen)
                     return false;
                 }
 
-                HttpHdrRangeSpec::HttpRange aSpec (offset, last_pos + 1);
+                // A last-byte-pos of INT64_MAX cannot be exceeded by any
+                // representation; keep such a spec open-ended (unknown length)
+                // instead of overflowing last_pos + 1 below.
+                if (last_pos < std::numeric_limits<int64_t>::max()) {
+                    HttpHdrRangeSpec::HttpRange aSpec (offset, last_pos + 1);
 
-                length = aSpec.size();
+                    length = aSpec.size();
+                }
             }
         }
 
